@@ -442,6 +442,35 @@ func (c *kase) clauses(o *obs, fail func(class, what string)) {
 			}
 		}
 	}
+	// ---- (a'') phase 2: every name of allCertDomains is handed to certmagic, or a wildcard that
+	// covers it is; nothing else is; the issuer key is recorded exactly for internal-only policies
+	if o.phase2 && !o.phase2Err {
+		for _, dn := range o.certs {
+			if _, ok := o.managing[dn]; ok {
+				continue
+			}
+			covered := false
+			for w := range o.managing {
+				if w != dn && strings.Contains(w, "*") && certmagic.MatchWildcard(dn, w) {
+					covered = true
+				}
+			}
+			if !covered {
+				fail("phase2:name-neither-managed-nor-covered-by-a-managed-wildcard", fmt.Sprintf("%q is in allCertDomains %v but Manage took on only %v", dn, o.certs, o.managing))
+			}
+		}
+		for w, key := range o.managing {
+			if !has(o.certs, w) {
+				fail("phase2:managing-a-name-outside-allCertDomains", fmt.Sprintf("%q", w))
+			}
+			if p := policyFor(o.policies, w); p != nil && (p.issuers == "i") != (key != "") {
+				fail("phase2:issuer-key-does-not-match-policy", fmt.Sprintf("%q: policy issuers %q, recorded issuer key %q", w, p.issuers, key))
+			}
+		}
+	}
+	if o.phase2Err {
+		fail("phase2:manage-failed", "automaticHTTPSPhase2 returned an error")
+	}
 	// ---- (b) servers confined to the HTTP port (or disabled) get neither
 	for d := 1; d < len(c.names); d++ {
 		named, onlyOff := false, true
@@ -878,6 +907,9 @@ func (c *kase) tags(o *obs) []string {
 	}
 	if len(o.certs) == 0 {
 		t = append(t, "no-cert-domains")
+	}
+	if o.phase2 && len(o.managing) < len(o.certs) {
+		t = append(t, "phase2:name-covered-by-managed-wildcard")
 	}
 	for _, p := range o.policies {
 		if p.issuers == "i" && len(p.subjects) > 0 {
